@@ -425,6 +425,20 @@ fn round_trip(t: &T, h: &Handle, scripting: bool) -> String {
     if want != got {
         return "diff".into();
     }
+    // the same text under the default options (discard_bom = true), in one piece: the only difference allowed to show is
+    // the documented one - a U+FEFF that starts the stream is dropped (known finding C07-leading-bom)
+    {
+        let dom3 = parse_fragment(RcDom::default(), parse_opts(scripting), name.clone(), vec![], scripting)
+            .one(StrTendril::from_slice(&text));
+        let doc3 = from_rcdom(&dom3.document);
+        let got3: Vec<T> = match doc3.children() {
+            [T::El(_, _, c)] => c.iter().map(strip).collect(),
+            _ => return "shape".into(),
+        };
+        if want != got3 {
+            return if text.starts_with('\u{feff}') { "diff-default-bom".into() } else { "diff-default".into() };
+        }
+    }
     // the same text re-parsed the way a consumer would feed it: default options, in pieces cut in front
     // of every U+FEFF (a leading BOM is only ever dropped at the very start of the stream)
     if text.contains('\u{feff}') && !text.starts_with('\u{feff}') {
